@@ -8,6 +8,8 @@ package main
 
 import (
 	"bytes"
+	"crypto/hmac"
+	"crypto/sha1"
 	"fmt"
 	"math/rand"
 	"os"
@@ -35,7 +37,7 @@ type rscript struct {
 }
 
 func (g *gen) makeScript() rscript {
-	s := rscript{version: 2 + g.r.Intn(2), seed: g.r.Int63(), mutation: g.r.Intn(19)}
+	s := rscript{version: 2 + g.r.Intn(2), seed: g.r.Int63(), mutation: g.r.Intn(22)}
 	base := 2
 	if s.version == 3 {
 		base = 4
@@ -79,7 +81,7 @@ func (g *gen) makeScript() rscript {
 		s.injectAt = 1 + g.r.Intn(14) // during the key exchange
 	}
 	s.target = []string{"A", "B"}[g.r.Intn(2)]
-	if s.mutation >= 16 {
+	if s.mutation >= 16 && s.mutation != 19 {
 		// needs a data message that has not been delivered yet: just before one of the two final deliveries
 		if g.r.Intn(2) == 0 {
 			s.injectAt, s.target = len(s.steps)-5, "B"
@@ -91,7 +93,7 @@ func (g *gen) makeScript() rscript {
 }
 
 // build the message to inject from what the target is about to receive / has received
-func (g *gen) craftInjection(sc rscript, pending, seen [][]byte, tgt, src *party) ([]byte, string) {
+func (g *gen) craftInjection(sc rscript, pending, seen, sentByTarget [][]byte, tgt, src *party) ([]byte, string) {
 	pick := func() []byte {
 		if len(pending) > 0 && g.r.Intn(3) != 0 {
 			return append([]byte{}, pending[0]...)
@@ -171,6 +173,49 @@ func (g *gen) craftInjection(sc rscript, pending, seen [][]byte, tgt, src *party
 			hdr = []byte{0, 2, t}
 		}
 		return append(append([]byte("?OTR:"), otr3.VerifB64Encode(append(hdr, g.bytesN(20+g.r.Intn(60))...))...), '.'), fmt.Sprintf("garbage-ake-%x", t)
+	case 20, 21: // a genuine, not yet delivered data message whose ciphertext is altered and which is
+		// authenticated anew with a MAC key the target itself has disclosed in one of its own messages
+		var keys [][]byte
+		for _, m := range sentByTarget {
+			if f, ok := dataFields(decodeWire(m), sc.version); ok && isDataWire(m) {
+				for i := 0; i+20 <= len(f.old); i += 20 {
+					keys = append(keys, f.old[i:i+20])
+				}
+			}
+		}
+		var victim []byte
+		for _, m := range pending {
+			if isDataWire(m) {
+				victim = m
+				break
+			}
+		}
+		if len(keys) == 0 || victim == nil {
+			return nil, ""
+		}
+		bin := decodeWire(victim)
+		f, ok := dataFields(bin, sc.version)
+		if !ok || f.encEnd-f.encStart < 1 {
+			return nil, ""
+		}
+		forged := append([]byte{}, bin...)
+		forged[f.encStart] ^= 0x20 // CTR mode: flips one bit of the first character of the text
+		mac := hmac.New(sha1.New, keys[g.r.Intn(len(keys))])
+		mac.Write(forged[:f.macStart])
+		copy(forged[f.macStart:f.macStart+20], mac.Sum(nil))
+		return encodeWire(forged), "forged-with-disclosed-key-flip"
+	case 19: // a DH-Key message carrying a different valid value while the target waits for the Signature
+		// message: it is ignored (not the one the Reveal Signature answered) and must leave no trace
+		for _, m := range seen {
+			if bytes.HasPrefix(m, []byte("?OTR:AAMK")) || bytes.HasPrefix(m, []byte("?OTR:AAIK")) {
+				bin := decodeWire(m)
+				if len(bin) > 8 {
+					bin[len(bin)-1] ^= 1
+					return encodeWire(bin), "other-dhkey-while-awaiting-sig"
+				}
+			}
+		}
+		return nil, ""
 	case 16, 17, 18: // re-encode the next-DH-key MPI of a genuine data message non-minimally (length prefix
 		// raised by k, k leading zero bytes): same number, different authenticated bytes, original MAC
 		var cands [][]byte
@@ -332,18 +377,33 @@ func (g *gen) runScript(w *world, sc rscript, inject bool) (obs []string, injInf
 			seenA = append(seenA, m)
 		}
 	}
+	injectedOnce := false
 	for i, st := range sc.steps {
 		if w.dead {
 			break
 		}
-		if inject && i == sc.injectAt {
+		due := i == sc.injectAt
+		if sc.mutation == 19 {
+			// as soon as the target waits for the Signature message (it has sent its Reveal Signature)
+			t := a
+			if sc.target == "B" {
+				t = b
+			}
+			due = !injectedOnce && otr3.VerifSnapshot(t.c).HasAke && otr3.VerifSnapshot(t.c).AkeState == 3
+		}
+		if inject && due {
+			injectedOnce = true
 			tgt, src, pending, seen := a, b, l.qba, seenA
 			if sc.target == "B" {
 				tgt, src, pending, seen = b, a, l.qab, seenB
 			}
 			// do not interrupt a fragment stream: the property covers fragments only between complete messages
 			if otr3.VerifSnapshot(tgt.c).FragIndex == 0 {
-				m, what := g.craftInjection(sc, pending, seen, tgt, src)
+				sentByTarget := append(append([][]byte{}, seenB...), l.qab...)
+				if sc.target == "B" {
+					sentByTarget = append(append([][]byte{}, seenA...), l.qba...)
+				}
+				m, what := g.craftInjection(sc, pending, seen, sentByTarget, tgt, src)
 				if m != nil {
 					before := otr3.VerifSnapshot(tgt.c)
 					plain, ts, err, pan := w.recv(tgt, m)
@@ -456,4 +516,48 @@ func init() {
 		olog.export(extra)
 		return g.dist
 	}
+}
+
+// the layout of a data message (after decoding): where the ciphertext, the MAC and the revealed keys are
+type dataLayout struct {
+	encStart, encEnd, macStart int
+	old                        []byte
+}
+
+func dataFields(bin []byte, version int) (f dataLayout, ok bool) {
+	off := 3
+	if version == 3 {
+		off = 11
+	}
+	off += 1 + 4 + 4
+	rd := func() (int, bool) {
+		if off+4 > len(bin) {
+			return 0, false
+		}
+		n := int(bin[off])<<24 | int(bin[off+1])<<16 | int(bin[off+2])<<8 | int(bin[off+3])
+		off += 4
+		if n < 0 || off+n > len(bin) {
+			return 0, false
+		}
+		return n, true
+	}
+	n, k := rd() // next DH key
+	if !k {
+		return f, false
+	}
+	off += n + 8 // ... and the counter
+	n, k = rd()
+	if !k {
+		return f, false
+	}
+	f.encStart, f.encEnd = off, off+n
+	off += n
+	f.macStart = off
+	off += 20
+	n, k = rd()
+	if !k {
+		return f, false
+	}
+	f.old = bin[off : off+n]
+	return f, true
 }
